@@ -14,7 +14,7 @@ from .builder_impl import parse_record, show
 PROP = "C07"
 KEYS = [k for k in bc.ALL_KEYS if k not in ("nhook", "lasthook")]
 W = dict(move=22, moveabs=6, setaxis=5, home=3, probe=5, dist=5, enter=2, exit=2, feed=5, power=5, toolon=6, tooloff=4,
-         poweron=6, poweroff=4, coolon=5, cooloff=4, toolchange=4, halt=8, ehalt=1, temp=6, misc=10, bounds=2)
+         poweron=6, poweroff=4, coolon=5, cooloff=4, toolchange=4, halt=8, ehalt=1, temp=6, misc=10, bounds=2, hook=3)
 MOTION = {"G0", "G1", "G38.2", "G38.3", "G38.4", "G38.5"}
 SPIN = {"clockwise": "M03", "counter": "M04"}
 PMODE = {"constant": "M03", "dynamic": "M04"}
